@@ -190,10 +190,22 @@ func (c *Ctx) rulesC18() {
 					continue
 				}
 				fk := relPkg(p.PkgPath) + ":" + fd.Name.Name
+				slotCalls := map[string]map[string]*ast.CallExpr{}
 				checkSlot := func(slot string, val ast.Expr, pos token.Pos) {
 					fam := pipeFamilyOfExpr(p, val, fd)
 					if fam == "" {
 						return
+					}
+					if ce, ok := val.(*ast.CallExpr); ok {
+						for _, suf := range []string{"State", "End"} {
+							if strings.HasSuffix(slot, suf) {
+								base := strings.TrimSuffix(slot, suf)
+								if slotCalls[base] == nil {
+									slotCalls[base] = map[string]*ast.CallExpr{}
+								}
+								slotCalls[base][suf] = ce
+							}
+						}
 					}
 					var want string
 					switch {
@@ -228,6 +240,25 @@ func (c *Ctx) rulesC18() {
 					}
 					return true
 				})
+				// the State and End handler of one slot pair talk about the same source state and,
+				// unless the helper takes separate active/inactive targets, the same target state
+				for base, m := range slotCalls {
+					a, r := m["State"], m["End"]
+					if a == nil || r == nil || len(a.Args) < 4 || len(r.Args) < 4 {
+						continue
+					}
+					// only proper add/remove pairs (documented Add-only bindings to Multi states are exempt in C18.wire)
+					if pipeFamilyOfExpr(p, a, fd) != "add" || pipeFamilyOfExpr(p, r, fd) != "remove" {
+						continue
+					}
+					srcA, srcR := types.ExprString(a.Args[2]), types.ExprString(r.Args[2])
+					tgtA, tgtR := types.ExprString(a.Args[3]), types.ExprString(r.Args[3])
+					split := strings.Contains(strings.ToLower(tgtA), "active") || strings.Contains(strings.ToLower(tgtR), "active")
+					good := srcA == srcR && (tgtA == tgtR || split)
+					nw++
+					c.check(good, "C18.wire", fk+" "+base+" State/End pair shares source and target", a.Pos(),
+						fmt.Sprintf("the add handler pipes %s -> %s but the remove handler pipes %s -> %s: the target state that was added on activation is not the one removed on deactivation", srcA, tgtA, srcR, tgtR))
+				}
 				// reflect-built structs in the pipes package
 				if relPkg(p.PkgPath) == pp && (fd.Name.Name == "Bind" || fd.Name.Name == "BindMany") {
 					var suffixes []string // order of appended StructField names
